@@ -32,6 +32,8 @@
 import RattrProofs.Lemmas.VisitCtx
 import RattrProofs.Lemmas.RootContext
 import RattrProofs.Lemmas.FileAnalyser
+import RattrProofs.Lemmas.C17Options
+import RattrModel.Generated.C17
 
 namespace Rattr.C17
 open Rattr Rattr.FnA Rattr.Strs
@@ -887,5 +889,192 @@ theorem rootContext_binds_assignments_value (f : Facts) (targets extra : List No
 /-- the hypotheses are satisfiable: `def f(a): …; x = 1` is plain and compiles. -/
 example : plainL [.funcDef "f".toList ⟨[], ["a".toList], none, [], none⟩ [] [] false,
     .assign [.name "x".toList .store] [] (some .const)] = true := by decide
+
+end Rattr.C17
+
+/-! ## The options that touch definitions: `-x` (`--exclude`), `@rattr_ignore`, `@rattr_results`
+
+"a module-level definition ... never warned" must hold whatever the run leaves out of the RESULTS.
+Exclusion and the annotations act in `FileAnalyser` (stage S4: the function is not analysed / gets the
+declared results); the ROOT CONTEXT (stage S2), which is what `get_and_verify_name` consults for every
+other function, is built without looking at them. Tie A (`Generated/C17.lean`, py/tables/t_c17.py)
+pins the source facts this rests on; Tie B is py/props/c17opts.py (op `root_context` under the run's
+own exclusion patterns + the whole pipeline in-process and through the CLI). -/
+
+namespace Rattr.C17
+open Rattr Rattr.FnA Rattr.Strs Rattr.RootCtx Rattr.Spec.ModuleBound
+
+/-- Tie A: `visit_FunctionDef` / `visit_AsyncFunctionDef` / `visit_ClassDef` are ONE unconditional
+`self.context.add(...)`; the block statements ONE `register_stmts` over their blocks (statement by
+statement text of the method bodies, regenerated from the source). -/
+theorem tieA_builder_bodies : Generated.C17.builderBodies = RootCtx.builderBodies := by decide
+
+/-- Tie A: no function of rattr/models/context/*.py or rattr/models/symbol/*.py reads an OPTION off
+`Config()` (only the current file and the literal prefix). -/
+theorem tieA_rootContext_config_reads : Generated.C17.configReads = RootCtx.configReads := by decide
+
+/-- Tie A: what `_root_context.py` imports from rattr at run time (nothing of `rattr.analyser`, where
+`is_excluded_name` and the annotation readers live). -/
+theorem tieA_rootContext_helpers : Generated.C17.rootContextHelpers = RootCtx.importedHelpers := by decide
+
+/-- Tie A: the functions defined in `_root_context.py` are the builder's methods + the six helpers
+the model names. -/
+theorem tieA_rootContext_functions :
+    FileA.sameMembers Generated.C17.rootContextFunctions RootCtx.sourceFunctions = true := by decide
+
+/-- registration does not depend on the exclusion verdicts: replacing `Facts.excluded` by ANY other
+list leaves `register` unchanged on every statement and every state … -/
+theorem rootContext_register_ignores_exclusion (f : Facts) (e : List Str) (t : Top) (s : St) :
+    register { f with excluded := e } t s = register f t s :=
+  register_facts_irrelevant { f with excluded := e } f rfl rfl t s
+
+/-- … hence the whole root context of a module is the same under every `-x` pattern set. -/
+theorem rootContext_compile_ignores_exclusion (f : Facts) (e : List Str) (bs : List Str) (body : List Top) :
+    compile { f with excluded := e } bs body = compile f bs body :=
+  compile_facts_irrelevant { f with excluded := e } f rfl rfl bs body
+
+/-- the builder depends on the facts only through `mods` and `isInit`. -/
+theorem rootContext_compile_depends_on_location_facts_only (f f' : Facts) (hm : f.mods = f'.mods)
+    (hi : f.isInit = f'.isInit) (bs : List Str) (body : List Top) : compile f bs body = compile f' bs body :=
+  compile_facts_irrelevant f f' hm hi bs body
+
+/-- `rootContext_binds_defs`, made explicit for an EXCLUDED definition: a module-level `def` whose
+name matches an exclusion pattern is bound all the same (to its `Func`, when the name was free). -/
+theorem rootContext_binds_excluded_defs (f : Facts) (bs : List Str) (pre post : List Top) (name : Str) (ps : Params)
+    (b : List Node) (d : List Ann.Deco) (a : Bool) (s' : St) (_hx : name ∈ f.excluded) (hpost : plainL post = true)
+    (h : compile f bs (pre ++ .funcDef name ps b d a :: post) = .ok s') :
+    ∃ s1, compile f bs pre = .ok s1 ∧
+      Context.contains s'.ctx (funcSym name ps.iface).name = true ∧
+      (Context.contains s1.ctx (funcSym name ps.iface).name = false →
+        Context.get? s'.ctx (funcSym name ps.iface).name = some (funcSym name ps.iface)) :=
+  rootContext_binds_defs f bs pre post name ps b d a s' hpost h
+
+/-- … and an excluded `class`. -/
+theorem rootContext_binds_excluded_classes (f : Facts) (bs : List Str) (pre post : List Top) (name : Str)
+    (bases : List Node) (body : List Top) (d : List Ann.Deco) (s' : St) (_hx : name ∈ f.excluded)
+    (hpost : plainL post = true) (h : compile f bs (pre ++ .classDef name bases body d :: post) = .ok s') :
+    ∃ s1, compile f bs pre = .ok s1 ∧
+      Context.contains s'.ctx (classSym name body).name = true ∧
+      (Context.contains s1.ctx (classSym name body).name = false →
+        Context.get? s'.ctx (classSym name body).name = some (classSym name body)) :=
+  rootContext_binds_classes f bs pre post name bases body d s' hpost h
+
+/-- whole-module form, against Python's own rule (`Spec.ModuleBound.defNamesL`): on a module without
+`del`, starred imports and module-level `match`, EVERY `def` / `async def` / `class` statement that
+executes at module level — at the top level or nested at any depth in `if` / `for` / `while` / `with`
+/ `try` blocks and handlers — is visible in the compiled root context. For all facts, so for every
+exclusion pattern, decorator and follow level. -/
+theorem rootContext_binds_all_defs (f : Facts) (bs : List Str) (body : List Top) (r : St)
+    (hp : plainL body = true) (hr : regularL body = true) (h : compile f bs body = .ok r) :
+    ∀ x ∈ defNamesL body, Context.contains r.ctx (withoutCallBrackets x) = true :=
+  registerL_binds_defs f body _ r hp hr (initial_ne bs) h
+
+/-- the property clause itself: in ANY function of such a module (any parameter list), loading,
+or deleting, the name of ANY module-level definition is not diagnosed and changes nothing — whatever
+`Facts.excluded` says about that definition or about the function. -/
+theorem C17_module_defs_never_warned (f : Facts) (bs : List Str) (body : List Top) (r : St)
+    (hp : plainL body = true) (hr : regularL body = true) (h : compile f bs body = .ok r)
+    (env : Env) (mn : Str) (qs : Params) (x : Str) (hx : x ∈ defNamesL body) (c : ECtx) :
+    ∃ s', visit env mn (.name (withoutCallBrackets x) c) (addArguments { ctx := Context.push r.ctx } qs) = .ok s' ∧
+      s'.diags = (addArguments { ctx := Context.push r.ctx } qs).diags ∧
+      s'.ctx = (addArguments { ctx := Context.push r.ctx } qs).ctx :=
+  C17_no_warning_name env mn _ c _
+    (C17_root_names_bound r.ctx qs _ (rootContext_binds_all_defs f bs body r hp hr h x hx))
+
+/-- the same for a compound use `x.a`, `x.a.b`, `x[i]` … of a module-level definition `x`. -/
+theorem C17_module_defs_attr_never_warned (f : Facts) (bs : List Str) (body : List Top) (r : St)
+    (hp : plainL body = true) (hr : regularL body = true) (h : compile f bs body = .ok r)
+    (env : Env) (mn : Str) (qs : Params) (x : Str) (hx : x ∈ defNamesL body) (v : Node) (a full : Str) (c : ECtx)
+    (hv : v.isNameable = true) (hn : namesOf true (.attr v a c) = .ok (withoutCallBrackets x) full) :
+    ∃ s', visit env mn (.attr v a c) (addArguments { ctx := Context.push r.ctx } qs) = .ok s' ∧
+      s'.diags = (addArguments { ctx := Context.push r.ctx } qs).diags :=
+  let ⟨s', h1, h2, _⟩ := C17_no_warning_attr env mn v a c _ _ full hv hn
+    (C17_root_names_bound r.ctx qs _ (rootContext_binds_all_defs f bs body r hp hr h x hx))
+  ⟨s', h1, h2⟩
+
+/-- stage S4 leaves the context alone when it SKIPS a definition: an excluded (or ignored) `def` is
+not analysed and the state — context, diagnostics, FileIr — is returned unchanged, so the name stays
+bound for every function visited afterwards. -/
+theorem C17_skipped_def_keeps_context (env : Env) (mn : Str) (f : Facts) (name : Str) (ps : Params)
+    (body : List Node) (decos : List Ann.Deco) (isAsync : Bool) (s : FileA.FState)
+    (h : Ann.hasAnnotation Ann.nIgnore decos = .ok true ∨
+         (Ann.hasAnnotation Ann.nIgnore decos = .ok false ∧ name ∈ f.excluded)) :
+    FileA.visitTop env mn f (.funcDef name ps body decos isAsync) s = .ok s := by
+  rw [FileA.visitTop.eq_def]
+  rcases h with h | ⟨h, hx⟩
+  · exact FileA.visitFuncDef_ignored env mn f name ps body decos s h
+  · exact FileA.visitFuncDef_excluded env mn f name ps body decos s h hx
+
+/-- … likewise a skipped `class`. -/
+theorem C17_skipped_class_keeps_context (env : Env) (mn : Str) (f : Facts) (name : Str) (bases : List Node)
+    (body : List Top) (decos : List Ann.Deco) (s : FileA.FState)
+    (h : Ann.hasAnnotation Ann.nIgnore decos = .ok true ∨
+         (Ann.hasAnnotation Ann.nIgnore decos = .ok false ∧ name ∈ f.excluded)) :
+    FileA.visitTop env mn f (.classDef name bases body decos) s = .ok s := by
+  rw [FileA.visitTop.eq_def]
+  rcases h with h | ⟨h, hx⟩
+  · exact FileA.visitClassDef_ignored env mn f name bases body decos s h
+  · exact FileA.visitClassDef_excluded env mn f name bases body decos s h hx
+
+/-! #### kernel-evaluated runs of both stages (`FileA.analyseFile`) -/
+
+def envO : Env := { ctxEnv := { prims := [], literals := [] }, analysers := [] }
+def P1 (x : String) : Params := ⟨[], [S x], none, [], none⟩
+/-- `def _h(z): return z.a` / `async def _g(z): return z.b` / `def pub(x): _h(x); _g; return _h(x).v` -/
+def modExcl : List Top :=
+  [.funcDef (S "_h") (P1 "z") [.ret [at' "z" "a"]] [] false,
+   .funcDef (S "_g") (P1 "z") [.ret [at' "z" "b"]] [] true,
+   .funcDef (S "pub") (P1 "x")
+     [.call (ld (S "_h")) [ld (S "x")] [] [], ld (S "_g"),
+      .ret [.attr (.call (ld (S "_h")) [ld (S "x")] [] []) (S "v") .load]] [] false]
+
+def fileRun (f : Facts) (body : List Top) : Option (List Str × List Str) :=
+  match FileA.analyseFile envO (S "m") f [] body with
+  | .ok (ir, ds) => some (ir.map (·.1.name), (ds.filter fun d => d.tmpl = S "undefined").map (·.arg))
+  | _ => none
+
+/-- TEST: with `-x '_.*'` (both helpers excluded) only `pub` has an entry, and analysing `pub` emits
+NO "potentially undefined" for `_h` / `_g`. -/
+theorem C17_test_excluded_helpers_not_warned :
+    fileRun { excluded := [S "_h", S "_g"] } modExcl = some ([S "pub"], []) := by decide +kernel
+
+/-- TEST: the same module with no exclusion: three entries, still no warning. -/
+theorem C17_test_no_exclusion_three_entries :
+    fileRun {} modExcl = some ([S "_h", S "_g", S "pub"], []) := by decide +kernel
+
+/-- TEST: a name bound nowhere is still warned about under exclusion. -/
+theorem C17_test_undefined_still_warned_under_exclusion :
+    fileRun { excluded := [S "_h"] }
+      [.funcDef (S "_h") (P1 "z") [] [] false,
+       .funcDef (S "pub") (P1 "x") [.call (ld (S "_h")) [ld (S "nowhere")] [] []] [] false]
+      = some ([S "pub"], [S "nowhere"]) := by decide +kernel
+
+/-- the hypothesis `regularL` is needed — finding "definition inside a module-level `match`": the
+builder has no `visit_Match`, so `match …: case …: def f(a): …` leaves `f` out of the root context
+(Python binds it; every use in a function is warned about). -/
+theorem rootContext_cex_def_inside_match :
+    (match compile {} [] [.compound (S "Match") [.expr .const, .compound (S "match_case")
+        [.funcDef (S "f") (P1 "a") [] [] false]]] with
+     | .ok s => (some (Context.contains s.ctx (S "f")), defNamesL [.compound (S "Match") [.expr .const,
+         .compound (S "match_case") [.funcDef (S "f") (P1 "a") [] [] false]]])
+     | _ => (none, [])) = (some false, [S "f"]) := by decide +kernel
+
+/-- finding "walrus outside an assignment statement": the expression statement `(w := 5)` is answered
+with `unexpected top-level 'ast.Expr'` and `w` is not registered. -/
+theorem rootContext_cex_bare_walrus_statement :
+    (match compile {} [] [.exprStmt (.walrus (.name (S "w") .store) .const)] with
+     | .ok s => some (Context.contains s.ctx (S "w"), s.diags.map (·.tmpl))
+     | _ => none) = some (false, [S "unexpected-top-level"]) := by decide +kernel
+
+/-- non-vacuity: a module with a definition nested two blocks deep satisfies the hypotheses of
+`rootContext_binds_all_defs`, and the name is in the spec's list. -/
+def modNested : List Top :=
+  [.compound (S "If") [.expr .const, .tryStmt [.funcDef (S "deep") (P1 "a") [] [] false] [.compound (S "ExceptHandler")
+      [.classDef (S "InHandler") [] [] []]] [] []]]
+example : plainL modNested = true ∧ regularL modNested = true ∧
+    defNamesL modNested = [S "deep", S "InHandler"] := by decide
+example : ∀ x ∈ defNamesL modNested, ∀ r, compile { excluded := [S "deep"] } [] modNested = .ok r →
+    Context.contains r.ctx (withoutCallBrackets x) = true :=
+  fun x hx r h => rootContext_binds_all_defs _ [] modNested r (by decide) (by decide) h x hx
 
 end Rattr.C17
